@@ -21,12 +21,26 @@ sys.path.insert(0, HERE)
 
 from multiprocessing.pool import ThreadPool  # noqa: E402
 
-from sim import simpool  # noqa: E402
+import queue  # noqa: E402
+
+from sim import simpool, simsync  # noqa: E402
+from sim.clock import SimClock, EPOCH0  # noqa: E402
 from sim.sched import Sched  # noqa: E402
+
+
+class _RealSync:
+    Lock, RLock, Event, Condition = threading.Lock, threading.RLock, threading.Event, threading.Condition
+    Semaphore, Queue, Thread = threading.Semaphore, queue.Queue, threading.Thread
+
+
+class _SimSync:
+    Lock, RLock, Event, Condition = simsync.SimLock, simsync.SimRLock, simsync.SimEvent, simsync.SimCondition
+    Semaphore, Queue, Thread = simsync.SimSemaphore, simsync.SimQueue, simpool.SimThread
 
 
 class RealEnv:
     name = "real"
+    sync = _RealSync
 
     def __init__(self):
         self.flags = {}
@@ -58,8 +72,11 @@ class RealEnv:
 class SimEnv:
     name = "sim"
 
+    sync = _SimSync
+
     def __init__(self):
         self.sched = Sched()
+        self.sched.clock = SimClock("fine", 1, EPOCH0)
         self.sched.attach_client()
         simpool.bind(self.sched)
         self.flags = set()
@@ -245,7 +262,158 @@ def sc_imap_unordered(env):
     return {"out": out}
 
 
-SCENARIOS = [sc_order, sc_chunk_failure, sc_second_chunk_fails, sc_zombie, sc_terminate_drops_queued, sc_map_error, sc_apply_async, sc_close_join,
+# --- threading / queue primitives (sim.simsync) against the real ones -------------------------------
+def sc_lock_contention(env):
+    S = env.sync
+    lock, out = S.Lock(), []
+
+    def t1():
+        with lock:
+            env.set("held")
+            env.wait("go")
+        env.set("released")
+
+    def t2():
+        env.wait("held")
+        out.append(("try", lock.acquire(False)))
+        env.set("go")
+        out.append(("block", lock.acquire()))
+        out.append(("locked", lock.locked()))
+        lock.release()
+
+    ts = [S.Thread(target=t1), S.Thread(target=t2)]
+    [t.start() for t in ts]
+    [t.join() for t in ts]
+    return {"out": out, "locked_after": lock.locked()}
+
+
+def sc_rlock_reentrant(env):
+    S = env.sync
+    lock, out = S.RLock(), []
+
+    def t1():
+        with lock:
+            with lock:
+                env.set("held2")
+                env.wait("tried")
+            out.append("inner released")
+            env.set("half")
+            env.wait("tried2")
+
+    def t2():
+        env.wait("held2")
+        out.append(("try", lock.acquire(False)))
+        env.set("tried")
+        env.wait("half")
+        out.append(("try2", lock.acquire(False)))
+        env.set("tried2")
+        out.append(("block", lock.acquire(True)))
+        lock.release()
+
+    ts = [S.Thread(target=t1), S.Thread(target=t2)]
+    [t.start() for t in ts]
+    [t.join() for t in ts]
+    return {"out": out}
+
+
+def sc_event_timeout(env):
+    S = env.sync
+    ev, out = S.Event(), []
+    out.append(ev.wait(0.05))  # nobody sets it: time passes (the simulated clock jumps), False
+    out.append(ev.is_set())
+
+    def setter():
+        env.wait("waiting")
+        ev.set()
+
+    t = S.Thread(target=setter)
+    t.start()
+    env.set("waiting")
+    out.append(ev.wait(30))
+    out.append(ev.wait())
+    t.join()
+    ev.clear()
+    out.append(ev.is_set())
+    return {"out": out}
+
+
+def sc_queue_producer_consumer(env):
+    S = env.sync
+    q, out = S.Queue(maxsize=2), []
+
+    def consumer():
+        for _ in range(5):
+            out.append(q.get())
+            q.task_done()
+        try:
+            q.get(timeout=0.05)
+        except queue.Empty:
+            out.append("empty")
+        try:
+            q.get_nowait()
+        except queue.Empty:
+            out.append("empty-nowait")
+
+    t = S.Thread(target=consumer)
+    t.start()
+    for i in range(5):
+        q.put(i)  # blocks while two items are queued
+    q.join()
+    t.join()
+    q.put("a")
+    q.put("b")
+    try:
+        q.put("c", timeout=0.05)
+    except queue.Full:
+        out.append("full")
+    return {"out": out, "size": q.qsize()}
+
+
+def sc_condition(env):
+    S = env.sync
+    cond, box, out = S.Condition(), [], []
+
+    def waiter():
+        with cond:
+            out.append(("first", cond.wait(0.05)))  # never notified: times out
+            env.set("ready")
+            out.append(("wait_for", cond.wait_for(lambda: bool(box), 30)))
+            out.append(("box", list(box)))
+
+    def notifier():
+        env.wait("ready")
+        with cond:
+            box.append(1)
+            cond.notify_all()
+
+    ts = [S.Thread(target=waiter), S.Thread(target=notifier)]
+    [t.start() for t in ts]
+    [t.join() for t in ts]
+    return {"out": out}
+
+
+def sc_semaphore(env):
+    S = env.sync
+    sem, out = S.Semaphore(2), []
+    out.append(sem.acquire())
+    out.append(sem.acquire())
+    out.append(sem.acquire(False))
+    out.append(sem.acquire(timeout=0.05))
+
+    def rel():
+        env.wait("blocked")
+        sem.release()
+
+    t = S.Thread(target=rel)
+    t.start()
+    env.set("blocked")
+    out.append(sem.acquire())
+    t.join()
+    return {"out": out}
+
+
+SCENARIOS = [sc_lock_contention, sc_rlock_reentrant, sc_event_timeout, sc_queue_producer_consumer, sc_condition, sc_semaphore,
+             sc_order, sc_chunk_failure, sc_second_chunk_fails, sc_zombie, sc_terminate_drops_queued, sc_map_error, sc_apply_async, sc_close_join,
              sc_imap_unordered]
 
 
